@@ -4,7 +4,7 @@ programs: in every answer set at every horizon of one incremental run, w_i(k) ho
 (TEL.lsat) of phi_i at k is true; formulas share sub-formulas through a pool; (b) constraints over &tel atoms compared
 with Oracle.tsm_enum."""
 import json
-import gen, s4, lang
+import gen, s4, lang, thstruct
 from props import c01
 
 PROP_FILE = 'Props/C03.v'
@@ -120,6 +120,15 @@ def run(ctx):
     maxbits = 12 if ctx.quick else 13
     recs2 = s4.compare(ctx, [p for _, p in progs], 3 if ctx.quick else 4, maxbits)
     res2 = c01.summarize(ctx, progs, recs2, 3 if ctx.quick else 4, maxbits, 'C03')
+    # structural correspondence: the executable full-operator model and Theory.translate emit the same constraints, event by event
+    scs = thstruct.cases(ctx, 150 if ctx.quick else 600)
+    srecs = thstruct.compare(ctx, scs, H)
+    sstat = {}
+    for fs, r in zip(scs, srecs):
+        sstat[r['status']] = sstat.get(r['status'], 0) + 1
+        if r['status'] in ('differ', 'implerror', 'modelerror'):
+            cex.append({'key': 'c03:structure:' + r['program'].replace('\n', ' '), 'what': 'Theory.translate and the model Model/BodyTheoryFull.v differ: %s' % r.get('what'),
+                        'input': {'structure': [[p_, f] for p_, f in fs], 'H': H, 'program': r['program']}})
     ops = {}
     shared = 0
     for c, fs in its:
@@ -132,10 +141,11 @@ def run(ctx):
     for r in recs:
         stat[r['status']] = stat.get(r['status'], 0) + 1
     nontriv = len({r['program'] for r in recs if r['status'] == 'agree' and 0 < r['true_values'] < r['values']})
-    cov = {'evaluations': len(recs) + len(recs2), 'distinct_nontrivial': nontriv + res2['coverage']['distinct_nontrivial'],
+    cov = {'evaluations': len(recs) + len(recs2) + len(srecs), 'structure_status_histogram': sstat, 'structure_events_compared': sum(r['events'] for r in srecs), 'distinct_nontrivial': nontriv + res2['coverage']['distinct_nontrivial'],
            'rule': 'witness programs: random context program over a,b(,c) + 1-4 witness rules over formulas of depth <= %d drawn with a shared sub-formula pool; horizons 0..%d '
                    'of one incremental run; every state of every answer set is compared with TEL.lsat; non-trivial = a program whose witness values are neither all true nor all false; '
-                   'constraint programs: %s' % (3 if ctx.quick else 4, H, res2['coverage']['rule']),
+                   'constraint programs: %s; structure: %d programs of 1-3 observer constraints over related formulas (all operators except the keywords &initial/&final and >>), '
+                   'the calls of Theory.translate on the backend compared event by event with the extracted model BodyTheoryFull (formulas built through the regenerated create_formula table)' % (3 if ctx.quick else 4, H, res2['coverage']['rule'], len(srecs)),
            'answer_sets_checked': sum(r['models'] for r in recs), 'values_checked': sum(r['values'] for r in recs),
            'operator_histogram': dict(sorted(ops.items())), 'shared_subformula_occurrences': shared, 'status_histogram': stat,
            'constraint_status_histogram': res2['coverage']['status_histogram'],
@@ -157,6 +167,9 @@ def totuple(x):
 
 def replay(ctx, payload):
     inp = payload['input']
+    if 'structure' in inp:
+        r = thstruct.compare(ctx, [[(p_, totuple(f)) for p_, f in inp['structure']]], inp.get('H', 3))[0]
+        return r['status'] in ('differ', 'implerror', 'modelerror')
     if 'formulas' in inp:
         r = s4.value_check(ctx, [(inp['context'], [totuple(f) for f in inp['formulas']])], inp.get('horizon') or 3)[0]
         return r['status'] in ('differ', 'implerror')
